@@ -852,6 +852,15 @@ def run(ctx):
         n_ret = 0
         for pn, lab in fg.exit.pred:
             s = pn.stmt
+            if isinstance(s, ast.Return) and s.value is not None and not isinstance(s.value, ast.Constant):
+                # `return bool(self._version >= rule.<field>)` / `return self._version >= rule.<field>`: the two constant returns in one expression
+                v_ = s.value
+                if isinstance(v_, ast.Call) and call_name(v_) == 'bool' and len(v_.args) == 1 and not v_.keywords:
+                    v_ = v_.args[0]
+                p_ = cmp_parts(v_)
+                if p_ and is_self_attr(p_[0], '_version') and isinstance(p_[2], ast.Attribute) and p_[2].attr == fld and p_[1] == 'GtE':
+                    n_ret += 2
+                    continue
             if not (isinstance(s, ast.Return) and isinstance(s.value, ast.Constant)):
                 good = False
                 continue
